@@ -13,7 +13,14 @@ use std::process::{Child, ChildStdin, Command, Stdio};
 use std::sync::mpsc;
 use std::time::{Duration, Instant};
 
-pub const WATCHDOG: Duration = Duration::from_secs(60);
+/// Wall-clock backstop for one run in flight (seconds). 60 by default; worlds whose runs take
+/// milliseconds and whose property includes termination (W4, W5) lower it.
+pub static WATCHDOG_S: std::sync::atomic::AtomicU64 = std::sync::atomic::AtomicU64::new(60);
+pub fn set_watchdog(secs: u64) { WATCHDOG_S.store(secs, std::sync::atomic::Ordering::SeqCst); }
+pub fn watchdog() -> Duration { Duration::from_secs(WATCHDOG_S.load(std::sync::atomic::Ordering::SeqCst)) }
+/// After this many worker deaths the batch hands out no further runs: the deaths are confirmed and
+/// reported, and a tree that kills or hangs its host on every other run must not cost hours.
+pub const CRASH_CAP: usize = 12;
 
 // ---------------------------------------------------------------------------------------------
 // worker side
@@ -91,11 +98,12 @@ pub struct Aggregate {
   pub digest_log: Vec<(u64, u64)>,
   pub wall_s: f64,
   pub stopped_by_clock: bool,
+  pub stopped_by_deaths: bool,
 }
 
 impl Aggregate {
   fn new() -> Self {
-    Aggregate { runs: 0, digests: HashSet::new(), nontrivial_digests: HashSet::new(), state_digests: HashSet::new(), counters: BTreeMap::new(), sets: BTreeMap::new(), violations: vec![], samples: vec![], crashed: vec![], digest_log: vec![], wall_s: 0.0, stopped_by_clock: false }
+    Aggregate { runs: 0, digests: HashSet::new(), nontrivial_digests: HashSet::new(), state_digests: HashSet::new(), counters: BTreeMap::new(), sets: BTreeMap::new(), violations: vec![], samples: vec![], crashed: vec![], digest_log: vec![], wall_s: 0.0, stopped_by_clock: false, stopped_by_deaths: false }
   }
   fn absorb(&mut self, k: u64, r: &J) {
     self.runs += 1;
@@ -178,8 +186,9 @@ pub fn run_batch(worker_args: Vec<String>, first: u64, max_runs: u64, jobs: usiz
       Err(mpsc::RecvTimeoutError::Timeout) => None,
       Err(_) => break,
     };
-    let stop = t0.elapsed() > budget;
+    let mut stop = t0.elapsed() > budget;
     if stop { agg.stopped_by_clock = true; }
+    if agg.crashed.len() >= CRASH_CAP { stop = true; agg.stopped_by_deaths = true; requeue.clear(); }
     match msg {
       Some(Msg::Line(id, line)) => {
         if let Some(rest) = line.strip_prefix("S ") {
@@ -227,7 +236,7 @@ pub fn run_batch(worker_args: Vec<String>, first: u64, max_runs: u64, jobs: usiz
     }
     // watchdog: a run in flight for too long
     let now = Instant::now();
-    let stuck: Vec<usize> = inflight.iter().filter(|(_, (cur, _, _, since))| cur.is_some() && now.duration_since(*since) > WATCHDOG).map(|(id, _)| *id).collect();
+    let stuck: Vec<usize> = inflight.iter().filter(|(_, (cur, _, _, since))| cur.is_some() && now.duration_since(*since) > watchdog()).map(|(id, _)| *id).collect();
     for id in stuck {
       if let Some(w) = workers.get_mut(&id) { let _ = w.child.kill(); }
       stderr_tail.entry(id).or_default().push("WATCHDOG: run exceeded the wall-clock backstop and was killed".into());
@@ -242,6 +251,32 @@ pub fn run_single(worker_args: Vec<String>, k: u64) -> Result<J, String> {
   let a = run_batch(worker_args, k, 1, 1, Duration::from_secs(600), 1)?;
   if let Some((_, why)) = a.crashed.first() { return Err(why.clone()); }
   Ok(json!({"violations": a.violations, "runs": a.runs}))
+}
+
+/// Run this binary with `args` as a child, wait at most `secs`; (exit code if it ended by itself,
+/// stdout, stderr, timed out).
+pub fn child_with_timeout(args: &[String], secs: u64) -> Result<(Option<i32>, String, String, bool), String> {
+  let exe = std::env::current_exe().map_err(|e| e.to_string())?;
+  let mut child = Command::new(exe).args(args).stdin(Stdio::null()).stdout(Stdio::piped()).stderr(Stdio::piped()).spawn().map_err(|e| e.to_string())?;
+  let mut so = child.stdout.take().unwrap();
+  let mut se = child.stderr.take().unwrap();
+  let h1 = std::thread::spawn(move || { let mut b = vec![]; std::io::Read::read_to_end(&mut so, &mut b).ok(); String::from_utf8_lossy(&b).to_string() });
+  let h2 = std::thread::spawn(move || { let mut b = vec![]; std::io::Read::read_to_end(&mut se, &mut b).ok(); String::from_utf8_lossy(&b).to_string() });
+  let t0 = Instant::now();
+  let mut timed_out = false;
+  let status = loop {
+    match child.try_wait() {
+      Ok(Some(st)) => break Some(st),
+      Ok(None) => {
+        if t0.elapsed() > Duration::from_secs(secs) { let _ = child.kill(); let _ = child.wait(); timed_out = true; break None; }
+        std::thread::sleep(Duration::from_millis(20));
+      }
+      Err(e) => return Err(e.to_string()),
+    }
+  };
+  let out = h1.join().unwrap_or_default();
+  let err = h2.join().unwrap_or_default();
+  Ok((status.and_then(|s| s.code()), out, err, timed_out))
 }
 
 pub fn default_jobs() -> usize {
